@@ -604,6 +604,31 @@ func init() {
 			}
 			return SliceV{arr: arr, len: len(mm), cap: len(mm)}
 		},
+		// parseNumber hands the token to strconv/regexp, which cannot be encoded: on symbolic bytes it is
+		// an uninterpreted function of the token (same bytes => same answer); concrete tokens run the real code.
+		"seehuhn.de/go/postscript.parseNumber": func(ex *Exec, fn *ssa.Function, a []Value) Value {
+			bs := ex.byteSliceTerms(a[0])
+			conc := true
+			key := ""
+			for _, b := range bs {
+				if b.Op != OConst {
+					conc = false
+				}
+				key += fmt.Sprintf("_%d", b.ID)
+			}
+			if conc {
+				return ex.callBody(fn, a, nil)
+			}
+			ex.w.note("stub: parseNumber on symbolic token bytes modelled as an uninterpreted function")
+			isNum := ex.st.Var("parseNumber.isnum"+key, SBool)
+			val := ex.st.Var("parseNumber.value"+key, SBV(64))
+			ex.inputs = append(ex.inputs, isNum, val)
+			if ex.branch(isNum) {
+				it := fn.Pkg.Type("Integer").Type()
+				return TupleV{IfaceV{t: it, v: val}, IfaceV{}}
+			}
+			return TupleV{IfaceV{}, ex.errorValue("not a number")}
+		},
 		"maps.Clone": func(ex *Exec, fn *ssa.Function, a []Value) Value {
 			m, _ := a[0].(*MapObj)
 			if m == nil {
